@@ -31,10 +31,10 @@ BuggyValue(cl) ==
       /\ Top.val.m[sticky[1]].t = "obj"
    THEN /\ stack' = [stack EXCEPT ![Len(stack)].val = ObjPut(@, sticky[1], ObjPut(Top.val.m[sticky[1]], cl.key[1], cl.x))]
         /\ last' = "ok" /\ UNCHANGED tops
-   ELSE Do(cl)
+   ELSE Call(cl)
 
 Step(cl) == /\ Len(hist) < MaxLen
-            /\ (IF Buggy THEN BuggyValue(cl) ELSE Do(cl))
+            /\ (IF Buggy THEN BuggyValue(cl) ELSE Call(cl))
             /\ hist' = Append(hist, [c |-> cl, o |-> last'])
             /\ sticky' = IF cl.op = "Pop" /\ Len(stack) >= 2 /\ Top.kind = "obj" /\ stack[Len(stack) - 1].kind = "obj" THEN Top.key
                          ELSE IF last' = "err" THEN sticky ELSE <<>>
